@@ -55,8 +55,9 @@ def _store_tracer(crate, labels, **kw):
 def rule_b(prog, rep):
     rep.rule('C01.b', 'T3', 'no half-created branches: in every Store method that creates nodes (get_or_create_child / '
              'get_or_create_lock_node) each path after the creation either sets a value on the node, cleans up '
-             '(trim / delete_lock_node), recurses into the populating function, or is on the Some edge of a value() test of '
-             'that node (it was populated already)')
+             '(trim / ndelete / delete_lock_node), or is on the Some edge of a value() test of that node (it was populated '
+             'already); for the recursive Store::nmerge: the children it creates are pruned by node.trim() when the imported '
+             'sub-tree left them empty')
     crate = prog.crate(WB)
     labels = {'Node::<K, V>::get_or_create_child': 'create', 'Store::get_or_create_lock_node': 'create',
               'Node::<K, V>::set_value': 'set', 'Node::<K, V>::trim': 'cleanup', 'Store::delete_lock_node': 'cleanup',
@@ -84,7 +85,7 @@ def rule_b(prog, rep):
             tb = [base(e) for e in t]
             i = tb.index('create')
             rest = tb[i + 1:]
-            if 'set' in rest or 'cleanup' in rest or 'recurse' in rest or 'value@Some' in rest:
+            if 'set' in rest or 'cleanup' in rest or 'value@Some' in rest:
                 continue
             bad = (ex, t, v)
             break
